@@ -1,50 +1,69 @@
-"""Network: 3–6 nodes exchanging Ping/Pong (with timeouts + retries) and one-way gossip over a `Network`
+"""Network: 2–6 nodes exchanging Ping/Pong (with timeouts + retries) and one-way gossip over a `Network`
 topology whose links come from every condition factory of conditions.py plus hand-made `NetworkLink`s
-(exponential latency, jitter, packet loss, finite bandwidth), wired as full mesh (bidirectional links),
-per-direction links, default-link only, or a sparse topology with missing routes.  During the run partitions
-are created and healed (symmetric and asymmetric, overlapping windows, selective `Partition.heal()` and
-`Network.heal_partition()`), both by a harness admin entity and by the library's fault schedule
-(`NetworkPartition`, `RandomPartition`, `InjectLatency`, `InjectPacketLoss`)."""
+(constant / exponential / percentile-fitted latency, jitter, packet loss 0 … 1, bandwidth None / 0 / tiny … 10 Gbps,
+explicit `egress`), wired as full mesh (bidirectional links), per-direction links, default-link only (optionally with a
+gateway egress), or a sparse topology with missing routes.  `all_kinds` deals the link kinds round-robin so that one
+scenario carries every factory.  During the run partitions are created and healed (symmetric and asymmetric,
+overlapping / zero-length / past-the-end windows, selective `Partition.heal()` and `Network.heal_partition()`), both by
+a harness admin entity and by the library's fault schedule (`NetworkPartition`, `RandomPartition`, `InjectLatency`,
+`InjectPacketLoss`, with and without `network_name`, some cancelled through their `FaultHandle`).  Optionally a second
+`Network` ("net-b", a ring) carries the gossip, and a stand-alone `NetworkLink(egress=...)` pipe is fed directly by a
+source.
+
+Durations (latencies, jitter, ping timeout, gossip period, processing time, partition / fault windows, heal-all time,
+mtbf / mttr, run end) are drawn with `dur_ms`: values that lose a nanosecond in `Instant.from_seconds`, sub-ms
+values, timeout shorter than the link latency, gossip period longer than the run, windows above 1 s.  Load regimes:
+light, one or two "hot" nodes at a few hundred pings/s, same-instant bursts, payloads from 0 to 1 MB on links from
+8 kbit/s upward (transmission time far above the run length)."""
 from __future__ import annotations
 
 import random
 
-from hv.scenarios.base import T, seed_all, stats_of, sub_seed
+from hv.scenarios.base import T, dur_ms, seed_all, stats_of, sub_seed
 
 NAME = "network"
 MODEL = None
 COMPONENTS = ["Network", "NetworkLink", "Partition", "local_network", "datacenter_network", "cross_region_network",
               "internet_network", "satellite_network", "lossy_network", "slow_network", "mobile_3g_network",
               "mobile_4g_network", "FaultSchedule", "NetworkPartition", "RandomPartition", "InjectLatency",
-              "InjectPacketLoss", "ConstantLatency", "ExponentialLatency", "Source"]
+              "InjectPacketLoss", "ConstantLatency", "ExponentialLatency", "PercentileFittedLatency", "Source"]
 
 KINDS = ["local", "datacenter", "cross_region", "internet", "satellite", "lossy", "slow", "mobile_3g", "mobile_4g",
          "custom", "custom"]
 NODE_NAMES = ["node-a", "node-b", "edge-17", "edge-3", "core-x", "k9"]
+LOSS = [0.0, 0.0, 0.001, 0.05, 0.2, 0.5, 0.9, 1.0]
+BANDWIDTH = [None, None, 0, 8_000, 64_000, 1_000_000, 100_000_000, 10_000_000_000]
 
 
-def _link_cfg(rng):
+def _link_cfg(rng, kind=None):
+    lat_kind = rng.choice(["const", "const", "exp", "exp", "pfit"])
     return {
-        "kind": rng.choice(KINDS),
-        "loss": rng.choice([0.0, 0.05, 0.2, 0.5]),
-        "lat_ms": rng.randint(1, 60),
-        "exp": rng.random() < 0.5,
-        "jit_ms": rng.choice([0, 0, 1, 5, 20]),
+        "kind": kind or rng.choice(KINDS),
+        "loss": rng.choice(LOSS),
+        "lat_ms": dur_ms(rng, 0.05, rng.choice([5, 60, 60, 700]), zero=True),
+        "exp": lat_kind == "exp",
+        "lat_kind": lat_kind,
+        "pfit_tail": rng.choice([None, 3, 10]),        # p99 = tail * p50 for the percentile-fitted latency
+        "jit_ms": 0 if rng.random() < 0.4 else dur_ms(rng, 0.1, rng.choice([5, 20, 120])),
         "jit_exp": rng.random() < 0.5,
-        "bw": rng.choice([None, 64_000, 1_000_000, 100_000_000]),
+        "bw": rng.choice(BANDWIDTH),
     }
 
 
 def gen_cfg(rng):
-    n = rng.randint(3, 6)
-    end = rng.choice([2.0, 3.0, 4.0, 6.0])
+    n = rng.choice([2, 3, 3, 4, 4, 5, 5, 6, 6])
+    long_run = rng.random() < 0.10
+    end = rng.choice([8.0, 10.0, 12.0]) if long_run else rng.choice([2.0, 3.0, 4.0, 6.0, 2.05, 3.001, 4.1])
     end_ms = int(end * 1000)
     pairs = [[i, j] for i in range(n) for j in range(i + 1, n)]
     topo = rng.choice(["mesh", "mesh", "directed", "default", "sparse"])
+    all_kinds = rng.random() < 0.5
+    two_nets = rng.random() < 0.35
 
     def window():
-        a = rng.randint(100, end_ms - 600)
-        return a, a + rng.randint(100, 1500)
+        a = dur_ms(rng, 20, end_ms - 100)
+        length = dur_ms(rng, 1, 2500, zero=True)
+        return a, round(a + length, 3)          # may lie beyond the end of the run; may be empty
 
     def groups():
         idx = list(range(n))
@@ -56,48 +75,97 @@ def gen_cfg(rng):
             gb = gb[:-1]
         return ga, gb
 
+    def which_net():
+        return rng.choice([None, None, "net", "net-b"]) if two_nets else rng.choice([None, None, "net"])
+
     parts = []
     for _ in range(rng.randint(1, 4)):
         a, b = window()
         ga, gb = groups()
         parts.append({"start": a, "end": b, "a": ga, "b": gb, "asym": rng.random() < 0.4,
-                      "via": rng.choice(["admin", "admin", "fault"])})
+                      "via": rng.choice(["admin", "admin", "fault"]), "net": which_net()})
     lat_faults, loss_faults = [], []
     for _ in range(rng.randint(0, 3)):
         a, b = window()
         i, j = rng.sample(range(n), 2)
-        lat_faults.append({"src": i, "dst": j, "extra_ms": rng.choice([5, 50, 300]), "start": a, "end": b})
+        lat_faults.append({"src": i, "dst": j, "extra_ms": dur_ms(rng, 0.1, 800), "start": a, "end": b,
+                           "net": which_net()})
     for _ in range(rng.randint(0, 3)):
         a, b = window()
         i, j = rng.sample(range(n), 2)
-        loss_faults.append({"src": i, "dst": j, "rate": rng.choice([0.1, 0.5, 1.0]), "start": a, "end": b})
+        loss_faults.append({"src": i, "dst": j, "rate": rng.choice([0.0, 0.1, 0.5, 1.0]), "start": a, "end": b,
+                            "net": which_net()})
+
+    # load regime: light everywhere, or one / two hot nodes (short runs only), plus same-instant bursts
+    rates = [rng.choice([5, 10, 20, 40]) for _ in range(n)]
+    regime = "light" if long_run else rng.choice(["light", "light", "hot", "hot2"])
+    if regime != "light":
+        budget = 1400.0 / end                      # total hot pings per second so that a run stays below ~2000 pings
+        hot = rng.sample(range(n), 1 if regime == "hot" or n < 3 else 2)
+        for i in hot:
+            rates[i] = int(min(400, budget / len(hot)))
+    bursts = [{"at": dur_ms(rng, 10, end_ms - 400), "node": rng.randrange(n), "k": rng.choice([5, 20, 60])}
+              for _ in range(rng.choice([0, 0, 1, 2]))]
+    n_faults = len(lat_faults) + len(loss_faults) + sum(1 for p in parts if p["via"] == "fault")
+    cancels = [{"h": rng.randrange(n_faults), "at": dur_ms(rng, 1, end_ms - 100)}
+               for _ in range(rng.choice([0, 0, 1, 2]))] if n_faults else []
+    kinds_cycle = list(KINDS[:10])
+    rng.shuffle(kinds_cycle)
+
+    def lk(k):
+        return _link_cfg(rng, kinds_cycle[k % len(kinds_cycle)] if all_kinds else None)
+
     return {
         "n": n,
         "end": end,
         "topo": topo,
-        "links": [dict(_link_cfg(rng), pair=p) for p in pairs],
-        "rev_links": [_link_cfg(rng) for _ in pairs],          # used by topo == "directed"
+        "all_kinds": all_kinds,
+        "links": [dict(lk(k), pair=p) for k, p in enumerate(pairs)],
+        "rev_links": [lk(len(pairs) + k) for k, _ in enumerate(pairs)],   # used by topo == "directed"
         "default": _link_cfg(rng),
+        "default_egress": rng.choice([None, None, rng.randrange(n)]),       # gateway node behind the default link
         "sparse_drop": [rng.random() < 0.3 for _ in pairs],   # topo == "sparse": pairs without a route
-        "rates": [rng.choice([5, 10, 20, 40]) for _ in range(n)],
+        "rates": rates,
         "poisson": [rng.random() < 0.5 for _ in range(n)],
-        "gossip_ms": rng.choice([0, 50, 100, 250]),
+        "bursts": bursts,
+        "gossip_ms": 0 if rng.random() < 0.25 else dur_ms(rng, 20, rng.choice([100, 250, 1500, end_ms + 500])),
         "fanout": rng.randint(1, 2),
-        "proc_ms": rng.randint(0, 5),
-        "timeout_ms": rng.choice([20, 80, 300, 1500]),
+        "proc_ms": 0 if rng.random() < 0.3 else dur_ms(rng, 0.1, rng.choice([5, 50])),
+        "timeout_ms": dur_ms(rng, 1, rng.choice([20, 80, 300, 2500])),
         "retries": rng.randint(0, 3),
-        "size": rng.choice([0, 64, 1500, 9000]),
+        "size": rng.choice([0, 1, 64, 1500, 9000, 1_000_000]),
         "bad_meta_every": rng.choice([0, 0, 7, 13]),
         "parts": parts,
-        "heal_all_ms": rng.choice([None, None, rng.randint(500, end_ms - 200)]),
-        "random_partition": ({"mtbf_ms": rng.choice([200, 500, 1000]), "mttr_ms": rng.choice([100, 300])}
+        "heal_all_ms": rng.choice([None, None, dur_ms(rng, 100, end_ms - 100)]),
+        "random_partition": ({"mtbf_ms": dur_ms(rng, 20, rng.choice([200, 1000, 2500])),
+                              "mttr_ms": dur_ms(rng, 5, rng.choice([100, 300, 1500])),
+                              "net": which_net()}
                              if rng.random() < 0.4 else None),
         "lat_faults": lat_faults,
         "loss_faults": loss_faults,
+        "cancels": cancels,
+        "two_nets": two_nets,
+        "net_b_first": two_nets and rng.random() < 0.3,    # which network a fault without network_name finds first
+        "ring": [_link_cfg(rng) for _ in range(n)],
+        "pipe": (dict(_link_cfg(rng, "custom"), rate=rng.choice([5, 20, 80]), poisson=rng.random() < 0.5)
+                 if rng.random() < 0.5 else None),
     }
 
 
-def _mk_link(lc, name):
+def _latency(lc):
+    from happysimulator.distributions import ConstantLatency, ExponentialLatency, PercentileFittedLatency
+
+    lat = lc["lat_ms"] / 1000.0
+    kind = lc.get("lat_kind", "exp" if lc["exp"] else "const")
+    if lat <= 0 or kind == "const":
+        return ConstantLatency(lat)
+    if kind == "pfit":
+        tail = lc.get("pfit_tail")
+        return PercentileFittedLatency(p50=lat, p99=lat * tail) if tail else PercentileFittedLatency(p50=lat)
+    return ExponentialLatency(lat)
+
+
+def _mk_link(lc, name, egress=None):
     from happysimulator.components.network import (NetworkLink, cross_region_network, datacenter_network,
                                                    internet_network, local_network, lossy_network,
                                                    mobile_3g_network, mobile_4g_network, satellite_network,
@@ -105,31 +173,35 @@ def _mk_link(lc, name):
     from happysimulator.distributions import ConstantLatency, ExponentialLatency
 
     k = lc["kind"]
+    link = None
     if k == "local":
-        return local_network(name)
-    if k == "datacenter":
-        return datacenter_network(name)
-    if k == "cross_region":
-        return cross_region_network(name)
-    if k == "internet":
-        return internet_network(name)
-    if k == "satellite":
-        return satellite_network(name)
-    if k == "lossy":
-        return lossy_network(lc["loss"], name=name, base_latency=lc["lat_ms"] / 1000.0)
-    if k == "slow":
-        return slow_network(lc["lat_ms"] / 1000.0 * 4, name=name, bandwidth_bps=lc["bw"] or 1_000_000)
-    if k == "mobile_3g":
-        return mobile_3g_network(name)
-    if k == "mobile_4g":
-        return mobile_4g_network(name)
-    lat = lc["lat_ms"] / 1000.0
+        link = local_network(name)
+    elif k == "datacenter":
+        link = datacenter_network(name)
+    elif k == "cross_region":
+        link = cross_region_network(name)
+    elif k == "internet":
+        link = internet_network(name)
+    elif k == "satellite":
+        link = satellite_network(name)
+    elif k == "lossy":
+        link = lossy_network(lc["loss"], name=name, base_latency=lc["lat_ms"] / 1000.0)
+    elif k == "slow":
+        link = slow_network(lc["lat_ms"] / 1000.0 * 4, name=name, bandwidth_bps=lc["bw"] or 1_000_000)
+    elif k == "mobile_3g":
+        link = mobile_3g_network(name)
+    elif k == "mobile_4g":
+        link = mobile_4g_network(name)
+    if link is not None:
+        if egress is not None:
+            link.egress = egress
+        return link
     jit = None
     if lc["jit_ms"]:
         j = lc["jit_ms"] / 1000.0
         jit = ExponentialLatency(j) if lc["jit_exp"] else ConstantLatency(j)
-    return NetworkLink(name=name, latency=ExponentialLatency(lat) if lc["exp"] else ConstantLatency(lat),
-                       bandwidth_bps=lc["bw"], packet_loss_rate=lc["loss"], jitter=jit)
+    return NetworkLink(name=name, latency=_latency(lc), bandwidth_bps=lc["bw"], packet_loss_rate=lc["loss"],
+                       jitter=jit, egress=egress)
 
 
 def build(cfg, seed):
@@ -146,11 +218,7 @@ def build(cfg, seed):
     n, end = cfg["n"], cfg["end"]
     names = NODE_NAMES[:n]
     topo = cfg["topo"]
-
-    default_link = _mk_link(cfg["default"], "default-link") if topo in ("default", "mesh", "directed") else None
-    if topo == "mesh" and not cfg["default"]["exp"]:
-        default_link = None            # some meshes have no default link at all
-    net = Network(name="net", default_link=default_link)
+    two_nets = cfg.get("two_nets", False)
 
     class Node(Entity):
         def __init__(self, i):
@@ -163,6 +231,7 @@ def build(cfg, seed):
             self.pings_sent = self.pings_rx = self.pongs_rx = self.late_pongs = 0
             self.timeouts = self.retries = self.gave_up = 0
             self.gossip_rx = self.gossip_tx = self.bad_sent = 0
+            self.misrouted = 0
             self.version = {nm: 0 for nm in names}
             self.rtts = []
             self.ticks = 0
@@ -195,16 +264,23 @@ def build(cfg, seed):
             if et == "GossipTick":
                 self.version[self.name] += 1
                 out = []
-                for p in self.rng.sample(self.peers, min(cfg["fanout"], len(self.peers))):
+                if two_nets:
+                    targets = sorted({(self.i + 1) % n, (self.i - 1) % n} - {self.i})[:cfg["fanout"]]
+                else:
+                    targets = self.rng.sample(self.peers, min(cfg["fanout"], len(self.peers)))
+                for p in targets:
                     self.gossip_tx += 1
-                    out.append(net.send(self, nodes[p], "Gossip", payload={"versions": dict(self.version),
-                                                                           "size": 32 * n}, daemon=True))
+                    out.append(gossip_net.send(self, nodes[p], "Gossip",
+                                               payload={"versions": dict(self.version), "size": 32 * n},
+                                               daemon=True))
                 out.append(Event(time=self.now + cfg["gossip_ms"] / 1000.0, event_type="GossipTick", target=self,
                                  daemon=True))
                 return out
             md = event.context.get("metadata", {})
             if et == "Ping":
                 self.pings_rx += 1
+                if md.get("destination") != self.name:
+                    self.misrouted += 1          # arrived through the default link's gateway egress
                 return self._reply(md)
             if et == "Pong":
                 pid = md["ping_id"]
@@ -246,6 +322,13 @@ def build(cfg, seed):
     for nd in nodes:
         nd.peers = [j for j in range(n) if j != nd.i]
 
+    de = cfg.get("default_egress")
+    default_link = (_mk_link(cfg["default"], "default-link", egress=None if de is None else nodes[de])
+                    if topo in ("default", "mesh", "directed") else None)
+    if topo == "mesh" and not cfg["default"]["exp"]:
+        default_link = None            # some meshes have no default link at all
+    net = Network(name="net", default_link=default_link)
+
     links = []
     for k, lc in enumerate(cfg["links"]):
         i, j = lc["pair"]
@@ -265,6 +348,28 @@ def build(cfg, seed):
             net.add_bidirectional_link(a, b, l1)
             links.append(l1)
 
+    # second network: a ring that carries the gossip
+    net_b = None
+    if two_nets:
+        net_b = Network(name="net-b")
+        for i in range(n):
+            j = (i + 1) % n
+            if j == i or (n == 2 and i == 1):
+                continue
+            net_b.add_bidirectional_link(nodes[i], nodes[j], _mk_link(cfg["ring"][i], f"r-{names[i]}={names[j]}"))
+    gossip_net = net_b if two_nets else net
+    nets = {"net": net}
+    if net_b is not None:
+        nets["net-b"] = net_b
+    net_entities = [net_b, net] if (net_b is not None and cfg.get("net_b_first")) else \
+        [x for x in (net, net_b) if x is not None]
+
+    def resolve(nm):
+        """the network a fault with `network_name=nm` acts on (None: the first registered one)"""
+        if nm is None or nm not in nets:
+            return None, net_entities[0]
+        return nm, nets[nm]
+
     class Admin(Entity):
         def __init__(self):
             super().__init__("admin")
@@ -275,7 +380,9 @@ def build(cfg, seed):
             k = event.context.get("k")
             if event.event_type == "part":
                 p = cfg["parts"][k]
-                h = net.partition([nodes[i] for i in p["a"]], [nodes[i] for i in p["b"]], asymmetric=p["asym"])
+                target_net = resolve(p.get("net"))[1]
+                h = target_net.partition([nodes[i] for i in p["a"]], [nodes[i] for i in p["b"]],
+                                         asymmetric=p["asym"])
                 self.handles[k] = h
                 self.log.append(["part", k, h.is_active])
             elif event.event_type == "heal":
@@ -287,34 +394,73 @@ def build(cfg, seed):
             elif event.event_type == "heal_all":
                 net.heal_partition()
                 self.log.append(["heal_all", -1, any(h.is_active for h in self.handles.values())])
+            elif event.event_type == "cancel":
+                fh = fault_handles[k % len(fault_handles)] if fault_handles else None
+                if fh is not None:
+                    fh.cancel()
+                    fh.cancel()   # idempotent
+                    self.log.append(["cancel", k % len(fault_handles), fh.cancelled])
             return None
 
     admin = Admin()
     faults = FaultSchedule("faults")
+    fault_handles = []
     for p in cfg["parts"]:
         if p["via"] == "fault":
-            faults.add(NetworkPartition([names[i] for i in p["a"]], [names[i] for i in p["b"]],
-                                        start=p["start"] / 1000.0, end=p["end"] / 1000.0, asymmetric=p["asym"]))
-    has_link = (lambda i, j: net.get_link(names[i], names[j]) is not None)
+            nm, _ = resolve(p.get("net"))
+            fault_handles.append(faults.add(NetworkPartition(
+                [names[i] for i in p["a"]], [names[i] for i in p["b"]], start=p["start"] / 1000.0,
+                end=p["end"] / 1000.0, asymmetric=p["asym"], network_name=nm)))
     for f in cfg["lat_faults"]:
-        if has_link(f["src"], f["dst"]):
-            faults.add(InjectLatency(names[f["src"]], names[f["dst"]], extra_ms=f["extra_ms"],
-                                     start=f["start"] / 1000.0, end=f["end"] / 1000.0))
+        nm, target_net = resolve(f.get("net"))
+        if target_net.get_link(names[f["src"]], names[f["dst"]]) is not None:
+            fault_handles.append(faults.add(InjectLatency(
+                names[f["src"]], names[f["dst"]], extra_ms=f["extra_ms"], start=f["start"] / 1000.0,
+                end=f["end"] / 1000.0, network_name=nm)))
     for f in cfg["loss_faults"]:
-        if has_link(f["src"], f["dst"]):
-            faults.add(InjectPacketLoss(names[f["src"]], names[f["dst"]], loss_rate=f["rate"],
-                                        start=f["start"] / 1000.0, end=f["end"] / 1000.0))
+        nm, target_net = resolve(f.get("net"))
+        if target_net.get_link(names[f["src"]], names[f["dst"]]) is not None:
+            fault_handles.append(faults.add(InjectPacketLoss(
+                names[f["src"]], names[f["dst"]], loss_rate=f["rate"], start=f["start"] / 1000.0,
+                end=f["end"] / 1000.0, network_name=nm)))
     if cfg["random_partition"]:
         rp = cfg["random_partition"]
+        nm, _ = resolve(rp.get("net"))
         faults.add(RandomPartition(list(names), mtbf=rp["mtbf_ms"] / 1000.0, mttr=rp["mttr_ms"] / 1000.0,
-                                   seed=sub_seed(seed, "random-partition")))
+                                   seed=sub_seed(seed, "random-partition"), network_name=nm))
 
     sources = []
     for i, nd in enumerate(nodes):
         mk = Source.poisson if cfg["poisson"][i] else Source.constant
         sources.append(mk(rate=cfg["rates"][i], target=nd, event_type="Tick", name=f"src-{nd.name}",
                           stop_after=end - 0.3))
-    sim = Simulation(end_time=T(end), sources=sources, entities=[net, admin, *nodes],
+
+    # stand-alone link used as a pipe: source -> NetworkLink(egress=sink)
+    pipe = sink = None
+    pc = cfg.get("pipe")
+    if pc:
+        class Sink(Entity):
+            def __init__(self):
+                super().__init__("pipe-sink")
+                self.n = 0
+                self.first = []
+                self.last = None
+
+            def handle_event(self, event):
+                self.n += 1
+                if len(self.first) < 5:
+                    self.first.append(self.now.nanoseconds)
+                self.last = self.now.nanoseconds
+                return None
+
+        sink = Sink()
+        pipe = _mk_link(pc, "pipe", egress=sink)
+        mk = Source.poisson if pc["poisson"] else Source.constant
+        sources.append(mk(rate=pc["rate"], target=pipe, event_type="Datagram", name="src-pipe",
+                          stop_after=end - 0.3))
+
+    extra = [x for x in (pipe, sink) if x is not None]
+    sim = Simulation(end_time=T(end), sources=sources, entities=[*net_entities, admin, *nodes, *extra],
                      fault_schedule=faults)
 
     def at(ms, typ, **ctx):
@@ -326,43 +472,58 @@ def build(cfg, seed):
             at(p["end"], "heal", k=k)
     if cfg["heal_all_ms"] is not None:
         at(cfg["heal_all_ms"], "heal_all")
+    for c in cfg.get("cancels", []):
+        at(c["at"], "cancel", k=c["h"])
     if cfg["gossip_ms"]:
         for i, nd in enumerate(nodes):
             sim.schedule(Event(time=Instant.from_seconds((cfg["gossip_ms"] + i) / 1000.0), event_type="GossipTick",
                                target=nd, daemon=True))
+    for b in cfg.get("bursts", []):
+        for _ in range(b["k"]):       # k pings started at one instant
+            sim.schedule(Event(time=Instant.from_seconds(b["at"] / 1000.0), event_type="Tick",
+                               target=nodes[b["node"] % n]))
 
-    def net_obs():
-        return {"routed": net.events_routed, "no_route": net.events_dropped_no_route,
-                "partition": net.events_dropped_partition,
-                "matrix": [[s.source, s.destination, s.packets_sent, s.packets_dropped, s.bytes_transmitted]
-                           for s in net.traffic_matrix()],
-                "partitioned": [[a, b, net.is_partitioned(a, b)] for a in names for b in names if a != b],
-                "default": None if net.default_link is None else
-                [net.default_link.packets_sent, net.default_link.packets_dropped,
-                 net.default_link.bytes_transmitted, net.default_link.current_utilization,
-                 net.default_link.packet_loss_rate]}
+    def one_link(l):
+        st = l.link_stats
+        return [l.name, st.packets_sent, st.packets_dropped, st.bytes_transmitted, l.current_utilization,
+                l.packet_loss_rate, type(l.latency).__name__, l.bandwidth_bps,
+                None if l.egress is None else l.egress.name]
 
-    def link_obs():
-        out = []
-        for a in names:
-            for b in names:
-                if a == b:
-                    continue
-                l = net.get_link(a, b)
-                if l is None:
-                    out.append([a, b, None])
-                else:
-                    st = l.link_stats
-                    out.append([a, b, l.name, st.packets_sent, st.packets_dropped, st.bytes_transmitted,
-                                l.current_utilization, l.packet_loss_rate])
-        return out
+    def net_obs(nw):
+        def read():
+            return {"routed": nw.events_routed, "no_route": nw.events_dropped_no_route,
+                    "partition": nw.events_dropped_partition,
+                    "matrix": [[s.source, s.destination, s.packets_sent, s.packets_dropped, s.bytes_transmitted]
+                               for s in nw.traffic_matrix()],
+                    "partitioned": [[a, b, nw.is_partitioned(a, b)] for a in names for b in names if a != b],
+                    "default": None if nw.default_link is None else one_link(nw.default_link)}
+        return read
 
-    obs = {"net": net_obs, "links": link_obs, "faults": stats_of(faults), "admin": lambda: admin.log}
+    def link_obs(nw):
+        def read():
+            out = []
+            for a in names:
+                for b in names:
+                    if a == b:
+                        continue
+                    l = nw.get_link(a, b)
+                    out.append([a, b, None] if l is None else [a, b, *one_link(l)])
+            return out
+        return read
+
+    obs = {"net": net_obs(net), "links": link_obs(net), "faults": stats_of(faults), "admin": lambda: admin.log,
+           "fault_handles": lambda: [[type(h.fault).__name__, h.cancelled] for h in fault_handles],
+           "sources": lambda: [[s.name, s.generated_count] for s in sources]}
+    if net_b is not None:
+        obs["net-b"] = net_obs(net_b)
+        obs["links-b"] = link_obs(net_b)
+    if pipe is not None:
+        obs["pipe"] = lambda: {"link": one_link(pipe), "n": sink.n, "first": sink.first, "last": sink.last}
     for nd in nodes:
         obs[nd.name] = (lambda nd=nd: {
             "ticks": nd.ticks, "pings_sent": nd.pings_sent, "pings_rx": nd.pings_rx, "pongs_rx": nd.pongs_rx,
             "late": nd.late_pongs, "timeouts": nd.timeouts, "retries": nd.retries, "gave_up": nd.gave_up,
-            "gossip_rx": nd.gossip_rx, "gossip_tx": nd.gossip_tx, "bad": nd.bad_sent,
+            "gossip_rx": nd.gossip_rx, "gossip_tx": nd.gossip_tx, "bad": nd.bad_sent, "misrouted": nd.misrouted,
             "pending": sorted(nd.pending), "version": nd.version, "rtt_n": len(nd.rtts),
             "rtt_sum": sum(nd.rtts), "rtt_last": nd.rtts[-5:]})
     return sim, obs
